@@ -53,7 +53,13 @@ def execute(prog, choose, line_level=False):
     out = {"history": [], "deadlock": None, "leaks": [], "errors": []}
     try:
         init = copy.deepcopy(INIT_D if spec.kind == "d" else INIT_L)
-        res.write_raw(copy.deepcopy(init))
+        if prog.get("model_init"):
+            init = {"a": 1}
+            res.write_raw(copy.deepcopy(init))
+        elif prog.get("missing"):
+            init = {} if spec.kind == "d" else []
+        else:
+            res.write_raw(copy.deepcopy(init))
         if res2:
             res2.write_raw(copy.deepcopy(init))
         if prog.get("corrupt"):
@@ -85,7 +91,15 @@ def execute(prog, choose, line_level=False):
                     oi, path, k = hs[h]
                     history.append({"e": "call", "t": tname, "p": path_steps(path), "op": o, "hk": k,
                                     "file": 1 if (res2 and oi == 1) else 0})
-                    obs = realize.perform(hdl[h], o, 0)
+                    if o["op"] == "__filename__":
+                        # re-point the collection at another (fresh) file
+                        try:
+                            hdl[h].filename = res.path + ".moved"
+                            obs = ("ret", None)
+                        except Exception as e:  # noqa: BLE001
+                            obs = ("err", e)
+                    else:
+                        obs = realize.perform(hdl[h], o, 0)
                     history.append({"e": "ret", "t": tname, "ret": _enc(obs), "file": 1 if (res2 and oi == 1) else 0})
                     if prog.get("sabotage") and tname == "t1":
                         pass
@@ -231,6 +245,9 @@ def judge(run, prop, results, claimed):
         nfiles = 2 if prog.get("two_files") else 1
         run.cov["evaluations"] += r["runs"]
         run.cov["schedules_executed"] = run.cov.get("schedules_executed", 0) + r["runs"]
+        if "lin" not in claimed:
+            # every executed schedule is one behaviour of the implementation checked for deadlock / leaked locks
+            run.cov["traces_validated_against_impl"] += r["runs"]
         for res in r["distinct"]:
             run._distinct.add(json.dumps([prog["name"], res["history"], res.get("final")], sort_keys=True, default=repr))
             base = {"program": prog, "op": prog["name"], "cls": prog["cls"], "schedule": res.get("schedule", [])[:120],
@@ -274,12 +291,15 @@ def programs_C09(tier, rnd):
                       ("JSONAttrDict", "d")):
         mut = MUT_D if kind == "d" else MUT_L
         ps = pairs(mut, mut)
-        if tier == "quick":
-            ps = rnd.sample(ps, 14 if cls.startswith("JSON") and "Attr" not in cls else 5)
+        if tier == "quick" and not (cls in ("JSONDict", "JSONList")):
+            ps = rnd.sample(ps, 12)
         for (a, b) in ps:
             for (h1, h2) in (("root", "root"), ("root", "other")):
                 progs.append({"name": f"{cls}:{h1}.{a['op']}||{h2}.{b['op']}", "cls": cls,
                               "threads": {"t1": [(h1, a)], "t2": [(h2, b)]}})
+        for (a, b) in rnd.sample(ps, min(len(ps), 6 if tier == "quick" else 40)):
+            progs.append({"name": f"{cls}[missing file]:root.{a['op']}||other.{b['op']}", "cls": cls, "missing": True,
+                          "threads": {"t1": [("root", a)], "t2": [("other", b)]}})
         # nested-child handles obtained before the threads start
         ch_d = MUT_D
         ch_l = MUT_L
@@ -329,6 +349,9 @@ def check_C09(tier):
     progs = programs_C09(tier, rnd)
     results = run_programs(run, progs, b, 60 if tier == "quick" else 400, line_level=False)
     judge(run, "C09", results, ("lin", "deadlock"))
+    mres = threads_model(run, "C09", ["C09_WritersLinearizable"], tier)
+    judge(run, "C09", [r for r in mres if all(o[1]["op"] != "contains" for ops in r["prog"]["threads"].values() for o in ops)],
+          ("lin", "deadlock"))
     if tier == "thorough":
         lp = rnd.sample(progs, min(60, len(progs)))
         results = run_programs(run, lp, 1, 150, line_level=True)
@@ -357,14 +380,30 @@ def check_C14(tier):
         mut = MUT_D if kind == "d" else MUT_L
         ps = pairs(reads, mut)
         if tier == "quick":
-            ps = rnd.sample(ps, 10 if buffered is None else 5)
+            ps = rnd.sample(ps, 30 if buffered is None else 24)
+        for (r, w) in rnd.sample(ps, min(len(ps), 8)):
+            if buffered is None:
+                progs.append({"name": f"{cls}[missing file]:other.{r['op']}(read)||root.{w['op']}", "cls": cls,
+                              "missing": True, "threads": {"t1": [("other", r)], "t2": [("root", w)]}})
         for (r, w) in ps:
             for (hr, hw) in (("other", "root"), ("root", "root")):
                 progs.append({"name": f"{cls}{'[buffered]' if buffered else ''}:{hr}.{r['op']}(read)||{hw}.{w['op']}",
                               "cls": cls, "threads": {"t1": [(hr, r)], "t2": [(hw, w)]}, "buffered": buffered,
                               "same_object": hr == hw})
-    results = run_programs(run, progs, 2, 60 if tier == "quick" else 300)
+    results = run_programs(run, progs, 2, 80 if tier == "quick" else 300)
     judge(run, "C14", results, ("lin", "deadlock", "exit"))
+    mres = threads_model(run, "C14", ["C14_TwoObjectsLinearizable"], tier)
+    for r in mres:     # same-object reader||writer behaviours carry the known-finding signature
+        th = r["prog"]["threads"]
+        objs = {t: ops[0][0] for t, ops in th.items()}
+        kinds = {t: ops[0][1]["op"] for t, ops in th.items()}
+        rd = [t for t in kinds if kinds[t] == "contains"]
+        wr = [t for t in kinds if kinds[t] != "contains"]
+        if rd and wr and any(objs[a] == objs[b] for a in rd for b in wr):
+            r["prog"]["name"] = f"model:root.{kinds[rd[0]]}(read)||root.{kinds[wr[0]]}"
+        elif len(rd) == 2 and objs[rd[0]] == objs[rd[1]]:
+            r["prog"]["name"] = f"model:root.{kinds[rd[0]]}(read)||root.{kinds[rd[1]]}(read)"
+    judge(run, "C14", mres, ("lin", "deadlock", "exit"))
     run.cov["programs"] = len(progs)
     for r in results[:1]:
         if r["distinct"]:
@@ -387,7 +426,7 @@ def check_C13(tier):
         mut = [m for m in (MUT_D if kind == "d" else MUT_L) if m["op"] not in ("pop", "remove", "reverse", "iadd")]
         ps = pairs(mut, mut)
         if tier == "quick":
-            ps = rnd.sample(ps, 6)
+            ps = rnd.sample(ps, 12)
         for (a, b) in ps:
             for cap in (None, 0, 1):
                 for shape in ("distinct", "same", "two_objs"):
@@ -402,8 +441,8 @@ def check_C13(tier):
                         p["threads"] = {"t1": [("root", a)], "t2": [("other", b)]}
                     progs.append(p)
     if tier == "quick":
-        progs = rnd.sample(progs, min(len(progs), 120))
-    results = run_programs(run, progs, 2, 50 if tier == "quick" else 300)
+        progs = rnd.sample(progs, min(len(progs), 300))
+    results = run_programs(run, progs, 2, 60 if tier == "quick" else 300)
     judge(run, "C13", results, ("lin", "deadlock", "exit", "size", "leak"))
     run.cov["programs"] = len(progs)
     for r in results[:1]:
@@ -448,8 +487,17 @@ def check_C10(tier):
                     for (h1, h2) in (("root", "root"), ("root", "other")):
                         progs.append({"name": f"{cls}[buf={buffered}]:{h1}.{a['op']}||{h2}.{b['op']}", "cls": cls,
                                       "buffered": buffered, "threads": {"t1": [(h1, a)], "t2": [(h2, b)]}})
+    # (d) re-pointing a collection at another file while other threads write (class lock x collection lock)
+    for cls, kind in (("JSONDict", "d"), ("BufferedJSONDict", "d"), ("JSONList", "l")):
+        mut = MUT_D if kind == "d" else MUT_L
+        for b in mut:
+            for (h1, h2) in (("root", "root"), ("root", "other")):
+                progs.append({"name": f"{cls}:{h1}.set_filename||{h2}.{b['op']}", "cls": cls,
+                              "threads": {"t1": [(h1, {"op": "__filename__"})], "t2": [(h2, b), (h2, b)]}})
     results = run_programs(run, progs, 2, 60 if tier == "quick" else 300)
     judge(run, "C10", results, ("deadlock", "leak"))
+    mres = threads_model(run, "C10", [], tier)
+    judge(run, "C10", mres, ("deadlock", "leak"))
     run.cov["programs"] = len(progs)
     sequential_lock_checks(run)
     for r in results[:1]:
@@ -532,3 +580,136 @@ def replay_case(prop, case):
         return 1
     print("not reproduced on this tree")
     return 0
+
+
+# ------------------------------------------------------------------ Threads.tla: model check + schedule replay
+FLAGS_AS_CODE = {"Dev_ReadersLockFree": "TRUE", "Dev_RootClearUnlocked": "FALSE", "Dev_LeakOnLoadFailure": "FALSE",
+                 "Dev_ClearLockOrderInverted": "FALSE"}
+STEP_KIND = {"start": "start", "acquireF": "acquire", "acquireB": "acquire", "load": "load", "susp+": "susp+",
+             "susp-": "susp-", "save": "save", "releaseF": "release", "releaseB": "release"}
+
+
+def threads_cfg(buffered, flags, invariants, faults=True):
+    c = {"Threads_": '{"t1", "t2"}', "Buffered": "TRUE" if buffered else "FALSE", "WithFaults": "TRUE" if faults else "FALSE"}
+    c.update(flags)
+    return tlc.cfg_text(constants=c, invariants=invariants, view="tview", check_deadlock=True)
+
+
+def model_op(op):
+    k = op["k"]
+    if op["kind"] == "add":
+        return {"op": "setitem", "k": k, "x": {"t": "i2"}}
+    if op["kind"] == "del":
+        return {"op": "pop", "k": k, "y": {"t": "n"}}
+    if op["kind"] == "clear":
+        return {"op": "clear"}
+    return {"op": "contains", "k": k}
+
+
+def replay_model_schedule(args):
+    """Execute one Threads.tla behaviour on the real classes: same program, threads released in the model's order."""
+    rec, buffered = args
+    L = sched.install()
+    prog = {"name": "model:" + "||".join(f"{rec['prog'][t]['o']}.{rec['prog'][t]['kind']}({rec['prog'][t]['k']})" for t in sorted(rec["prog"])),
+            "cls": "BufferedJSONDict" if buffered else "JSONDict",
+            "threads": {t: [("root" if rec["prog"][t]["o"] == "o1" else "other", model_op(rec["prog"][t]))] for t in sorted(rec["prog"])},
+            "buffered": {"cap": None} if buffered else None, "model_init": True}
+    steps = [(s[0], s[1]) for s in rec["trace"]]
+    stat = {"matched": 0, "modelled": 0, "drift": 0}
+    idx = [0]
+    cls = getattr(L.json, prog["cls"])
+
+    def lock_kind(lk):
+        if isinstance(lk, sched.SchedRLock):
+            if lk is cls.__dict__.get("_BUFFER_LOCK") or lk is getattr(cls, "_BUFFER_LOCK", None):
+                return "B"
+            if lk in cls._locks.values():
+                return "F"
+        return "other"
+
+    def choose(runnable, current, tr):
+        while idx[0] < len(steps):
+            t, st = steps[idx[0]]
+            kind = STEP_KIND.get(st)
+            if kind is None:
+                idx[0] += 1
+                continue
+            th = next((x for x in runnable if x.name == t), None)
+            if th is None:
+                idx[0] += 1
+                stat["drift"] += 1
+                stat["modelled"] += 1
+                continue
+            pk = th.point[0]
+            same = pk == kind
+            if same and kind == "acquire":
+                same = lock_kind(th.point[1]) == ("F" if st == "acquireF" else "B")
+            if same:
+                idx[0] += 1
+                stat["matched"] += 1
+                stat["modelled"] += 1
+            return th
+        return current if current is not None else runnable[0]
+    res = execute(prog, choose)
+    res["stat"] = stat
+    res["model"] = {"res": sorted(rec["res"]) if isinstance(rec["res"], list) else rec["res"], "rets": rec["rets"]}
+    res["prog"] = prog
+    return res
+
+
+def threads_model(run, prop, invariants, tier, buffered_modes=(False, True)):
+    """Model-check Threads.tla with the flags that describe the current code; replay terminal behaviours."""
+    rnd = random.Random(common.seed())
+    replayed = []
+    for buffered in buffered_modes:
+        cfg = threads_cfg(buffered, FLAGS_AS_CODE, ["C10_NoLockLeak", "ExportDone"] + invariants)
+        res = tlc.run("Threads", cfg, name=f"threads-{prop}-{int(buffered)}", timeout=900, coverage=True)
+        if not res.ok:
+            run.machinery_error(f"TLC Threads (flags as code, buffered={buffered}): violated={res.violated} deadlock={res.deadlock} "
+                                f"{res.errors[:2]} {res.tail(8)}")
+            continue
+        run.add_tlc(res, f"Threads.tla flags=as-code buffered={buffered} invariants={invariants}")
+        recs = [val.norm(r) for r in res.records("SCHED")]
+        recs = [r for r in recs if all(s_[1] != "loadfails" for s_ in r["trace"])]    # faults are not injected in the replay
+        for r in rnd.sample(recs, min(len(recs), 150 if tier == "quick" else 2000)):
+            replayed.append((r, buffered))
+    # every deviation flag must have a witness (otherwise the model is vacuous)
+    for flag, inv, expect in (("Dev_RootClearUnlocked", "C09_WritersLinearizable", "inv"),
+                              ("Dev_LeakOnLoadFailure", "C10_NoLockLeak", "deadlock-or-inv"),
+                              ("Dev_ClearLockOrderInverted", "C09_WritersLinearizable", "deadlock")):
+        flags = dict(FLAGS_AS_CODE)
+        flags[flag] = "TRUE"
+        r2 = tlc.run("Threads", threads_cfg(flag == "Dev_ClearLockOrderInverted", flags, ["C10_NoLockLeak", inv]),
+                     name=f"threads-dev-{flag}", timeout=600)
+        hit = r2.deadlock or r2.violated
+        if not hit:
+            run.machinery_error(f"deviation flag {flag} has no witness in Threads.tla (vacuous flag)")
+        run.cov.setdefault("deviation_witnesses", {})[flag] = "deadlock" if r2.deadlock else str(r2.violated)
+    # intended design (readers take the lock): everything must hold
+    flags = dict(FLAGS_AS_CODE)
+    flags["Dev_ReadersLockFree"] = "FALSE"
+    r3 = tlc.run("Threads", threads_cfg(False, flags, ["C10_NoLockLeak", "C14_ReadersLinearizable"]), name="threads-intended",
+                 timeout=600)
+    if not r3.ok:
+        run.machinery_error(f"intended design of Threads.tla violates the properties: {r3.violated} {r3.deadlock}")
+    run.add_tlc(r3, "Threads.tla intended design (readers locked): all properties")
+    outs = common.pmap(replay_model_schedule, replayed)
+    matched = modelled = agree = 0
+    results = []
+    for o in outs:
+        matched += o["stat"]["matched"]
+        modelled += o["stat"]["modelled"]
+        results.append({"prog": o["prog"], "runs": 1, "distinct": [o]})
+        if o.get("final") and not o["deadlock"]:
+            real_keys = sorted(val.to_py(o["final"][0]).keys()) if o["final"][0]["t"] == "d" else None
+            if real_keys == sorted(o["model"]["res"]):
+                agree += 1
+    run.cov["model_schedules_replayed"] = len(outs)
+    run.cov["model_steps_matched"] = f"{matched}/{modelled}"
+    run.cov["model_outcome_agreement"] = f"{agree}/{len(outs)}"
+    if outs and agree < len(outs):
+        run.notes.append(f"MODEL-DRIFT: {len(outs) - agree} replayed Threads.tla behaviours ended with a different final "
+                         "content than the model predicts (judged by Lin.tla, not by the model)")
+    if modelled and matched < 0.8 * modelled:
+        run.notes.append("MODEL-DRIFT: fewer than 80% of the modelled synchronisation steps were observed in order")
+    return results
